@@ -208,6 +208,10 @@ def amounts_dec(rng, n_random=4):
            ("third18", (333333333333333333, 18)), ("pow10", (1, rng.below(15))),
            ("big-int", (10 ** (rng.below(6) + 9) + rng.below(1000), 0)),
            ("tiny", (rng.below(9) + 1, 15))]
+    # integral VALUES written with fractional digits (2.0, 3.00, 120.000): the coefficient is not the integer
+    j = rng.below(6) + 1
+    out.append(("int-digits", ((rng.below(50) + 2) * 10 ** j, j)))
+    out.append(("neg-int-digits", (-(rng.below(9) + 1) * 10 ** j, j)))
     for _ in range(n_random):
         nfd = rng.below(19)
         digits = rng.below(17) + 1
